@@ -157,6 +157,8 @@ def directed(pid):
         S += [upgrade_points()]
     if pid in ("C08", "C03"):
         S += [threshold_raise_while_paused()]
+    if pid == "C03":
+        S += [depth_bound_chain("testnet", 144, 0), tie_depth_escape("testnet")]
     return S
 
 
@@ -448,3 +450,58 @@ def gate_history(seed, nblocks=14):
         cmds.append({"c": "hb"})
         cmds += gate_queries(rng, 3, "regtest")
     return w.scenario(f"gate-{seed}", {"thr": thr, "seed": seed, "gate": True}, cmds)
+
+
+# ---------------------------------------------------------------------------------------------
+# C03: the adaptive depth bound of testnet / regtest (long chains, direct mode)
+# ---------------------------------------------------------------------------------------------
+def _plain_chain(w, parent, n, diff):
+    out = []
+    p = parent
+    for _ in range(n):
+        p = w.mine(p, ntx=0, coinbase_out=cb(1, 1), diff=diff, time=w.blocks[p]["time"] + 600)
+        out.append(p)
+    return out
+
+
+def depth_bound_chain(net="testnet", thr=144, competing=0):
+    """A single long chain whose difficulty never reaches the threshold: the anchor must advance exactly
+    when the chain's depth reaches the adaptive bound (and leads the runner-up by it)."""
+    w = World(random.Random(31), net=net, naddr=1, prefix_pair=False)
+    w.blocks[1]["diff"] = 1000000
+    main = _plain_chain(w, 1, 420, 1)
+    side = _plain_chain(w, 1, competing, 1) if competing else []
+    cmds = [{"c": "tick", "dt": 100000}]
+    cmds.append({"c": "bulk_push", "bs": side + main[:385]})
+    cmds.append({"c": "ingest"})
+    for b in main[385:]:
+        cmds.append({"c": "push", "b": b})
+        cmds.append({"c": "ingest"})
+        cmds.append(q("info"))
+    sc = w.scenario(f"depth-bound-{net}-{thr}-{competing}", {"thr": thr, "seed": 31, "book": False}, cmds)
+    sc["blocks"].insert(0, {"id": 1, "parent": 0, "diff": 1000000, "time": 0, "txs": [1]})
+    return sc
+
+
+def tie_depth_escape(net="testnet", la=302, lc=301):
+    """Three children of the anchor tied on accumulated difficulty: c1 (302 blocks, received first),
+    c2 (one heavy block), c3 (301 blocks, received last).  The depth escape picks c3, the served chain
+    runs through c1."""
+    w = World(random.Random(32), net=net, naddr=1, prefix_pair=False)
+    w.blocks[1]["diff"] = 1000000000
+    a = _plain_chain(w, 1, la, lc)          # sum la * lc
+    b = _plain_chain(w, 1, 1, la * lc)
+    c = _plain_chain(w, 1, lc, la)          # sum lc * la
+    cmds = [{"c": "tick", "dt": 100000}]
+    cmds.append({"c": "bulk_push", "bs": a + b + c[:-3]})
+    cmds.append({"c": "ingest"})
+    cmds.append(q("info"))
+    for x in c[-3:]:
+        cmds.append({"c": "push", "b": x})
+        cmds.append(q("info"))
+        cmds.append({"c": "ingest"})
+        cmds.append(q("info"))
+        cmds.append(q("headers", s=0, e=3))
+    sc = w.scenario(f"tie-depth-escape-{net}", {"thr": 1, "seed": 32, "book": False}, cmds)
+    sc["blocks"].insert(0, {"id": 1, "parent": 0, "diff": 1000000000, "time": 0, "txs": [1]})
+    return sc
